@@ -294,3 +294,26 @@ Fixpoint pouts_eqb (a b : list pout) : list bool :=
 (* what a Gen file prints for one history: positions of the calls whose observed outcome differs *)
 Definition hcheck (p n f : bool) (ops : list hop) (observed : list pout) : list Z :=
   failing (pouts_eqb (hrun p n f st0 ops) observed).
+
+(* ---- the static facts of the model against the source text -------------------------------------
+   harness/c07_translate.py reads cherab/openadas/openadas.py with Python's ast on every run and emits
+   one row per rate accessor (fail-closed: any statement it does not recognise makes the row false).
+   A row records what the source does; src_ok compares it with the tables this model is built on. *)
+Record srcrow := mksrc {
+  s_acc : accessor;
+  s_photon : bool;      (* self.wavelength(...) is called and its result handed to the rate class *)
+  s_two : bool;         (* two species parameters *)
+  s_wlslot : Z;         (* which species parameter (1 / 2) is handed, UNREDUCED, to self.wavelength; 0: none *)
+  s_reduce : bool;      (* every species argument of repository.get_* is the element of the parameter *)
+  s_catch : bool;       (* the repository call sits in try / except RuntimeError *)
+  s_null : bool;        (* the handler returns a Null* rate iff self._missing_rates_return_null, else re-raises *)
+  s_permit : bool       (* the rate class gets extrapolate=self._permit_extrapolation *)
+}.
+Definition wl_slot_of (a : accessor) : Z :=
+  if photon a then (match a with ABeamCXPEC | AThermalCXPEC => 2 | _ => 1 end)%Z else 0%Z.
+Definition src_row_ok (r : srcrow) : bool :=
+  Bool.eqb (s_photon r) (photon (s_acc r)) && Bool.eqb (s_two r) (two_slot (s_acc r))
+  && Z.eqb (s_wlslot r) (wl_slot_of (s_acc r)) && s_reduce r && s_catch r && s_null r && s_permit r.
+Definition src_ok (wavelength_method_ok : bool) (rows : list srcrow) : bool :=
+  wavelength_method_ok && forallb src_row_ok rows
+  && forallb (fun a => accessor_eqb a AWavelength || existsb (fun r => accessor_eqb (s_acc r) a) rows) all_accessors.
